@@ -101,3 +101,14 @@ package local
 //@   safety nil
 //@   requires s != nil
 //@   ensures query == nil ==> err != nil
+
+// C20 (a query resolves to the entry it spells): the HTTP route hands the resolver exactly the entry of the URL - the
+// remainder of the path with the "/resolve" route suffix taken off, and nothing else cut from it.
+//@ func (httpsvc *HttpService) ApiResolveComponentQuery(w http.ResponseWriter, r *http.Request)
+//@   property C20
+//@   opt strings=uf
+//@   opt callee-requires=assume
+//@   ghostvar rem string = ""
+//@   ghostvar haveRem bool = false
+//@   on lookup queryParams when key == "remainder" : rem = result0 ; haveRem = result1
+//@   on call .ResolveComponentQuery : assert haveRem && arg0 != nil && arg0.EntryKey == strings.sansSuffix(rem, "/resolve")
